@@ -325,6 +325,55 @@ def create_from_float(ctx, r, n):
             ctx.violation("CreateFromFloat-integer-got-a-fraction", dict(case, result=repr(fv)), replay=case)
 
 
+def same_target_sequences(ctx, db, aff):
+    """One target unit asked for from several source units one after the other, in one process, with the quantity given
+    each way the classmethod accepts (type name, a Quantity in any unit of the type) - and the other way round, one source
+    to several targets: what was worked out for one pair of units is nothing another pair may be answered with."""
+    from barril.basic.fraction import FractionValue
+    from barril.units import FractionScalar, ObtainQuantity, Scalar
+
+    n = 0
+    for qi, (qt, us) in enumerate(sorted(table.units_by_type(db).items())):
+        us = [u for u in us if u in aff and aff[u].exact and aff[u].slope > 0]
+        if qt == "Unknown" or len(us) < 3 or qi % ctx.nshards != ctx.shard:
+            continue
+        base = db.GetBaseUnit(qt)
+        distinct, seen = [], set()
+        for u in us:
+            if aff[u].slope not in seen and u != base:
+                seen.add(aff[u].slope)
+                distinct.append(u)
+        distinct = distinct[:5]
+        fv = FractionValue(20, (3, 4))
+        x = float(fv)
+        for fixed, others, fixed_is_target in ((base, distinct, True), (base, distinct, False), (distinct[0], distinct[1:] + [base], True)):
+            for how in ("str", "Quantity(base unit)", "Quantity(fixed unit)", "FractionScalar.GetValue", "UnitDatabase.Convert"):
+                for o in others:
+                    u, v = (o, fixed) if fixed_is_target else (fixed, o)
+                    case = {"qt": qt, "u": u, "v": v, "how": how, "sequence": "several sources, one target" if fixed_is_target else "one source, several targets"}
+                    ctx.ev()
+                    n += 1
+                    try:
+                        ref = Scalar(x, u).GetValue(v)
+                        if how == "str":
+                            got = FractionScalar.ConvertFractionValue(fv, qt, u, v)
+                        elif how == "Quantity(base unit)":
+                            got = FractionScalar.ConvertFractionValue(fv, ObtainQuantity(base), u, v)
+                        elif how == "Quantity(fixed unit)":
+                            got = FractionScalar.ConvertFractionValue(fv, ObtainQuantity(fixed), u, v)
+                        elif how == "FractionScalar.GetValue":
+                            got = FractionScalar(fv, u).GetValue(v)
+                        else:
+                            got = db.Convert(qt, u, v, fv)
+                    except Exception as e:
+                        ctx.violation("same-target-sequence-raised:%s:%s" % (how, type(e).__name__), dict(case, error=str(e)[:160]), replay=case)
+                        continue
+                    tol = 1e-9 * (abs(ref) + abs(aff[u].off / aff[v].slope) + abs(aff[v].off / aff[v].slope)) + 1e-300
+                    if abs(float(got) - ref) > tol or float(fv) != x:
+                        ctx.violation("fraction-conversion-in-a-sequence-differs-from-Scalar:%s" % how, dict(case, got=float(got), expected=ref), replay=case)
+    ctx.count("fraction conversions in same-target / same-source sequences", n)
+
+
 # ------------------------------------------------------------------------------------------ D
 def fraction_scalars(ctx, db, aff, r):
     from barril.basic.fraction import FractionValue
@@ -472,6 +521,7 @@ def run(ctx):
     db = table.build("posc")
     with table.pushed(db):
         aff = conv.describe(db)
+        same_target_sequences(ctx, db, aff)
         fraction_scalars(ctx, db, aff, r)
     if ctx.shard == 0:
         validation(ctx, r)
@@ -497,4 +547,5 @@ def replay(ctx, d):
         fraction_arithmetic(ctx, r, 3000, dens)
         db = table.build("posc")
         with table.pushed(db):
+            same_target_sequences(ctx, db, conv.describe(db))
             fraction_scalars(ctx, db, conv.describe(db), r)
